@@ -237,7 +237,7 @@ def run(ctx):
     ctx.assumptions = ["strconv is modelled, not verified", "JSON decoder and DSL lexer contexts are tied through mlr runs only"]
     gen_tables(ctx)
     forbidden_gate(ctx, ["Base", "C06"])
-    ok, why = check_props(ctx, "C06/Props.v", ["C06/TableProofs.vo", "C06/Harness.vo", "C06/GrammarInfer.vo", "C06/Tables.vo"])
+    ok, why = check_props(ctx, "C06/Props.v", ["C06/TableProofs.vo", "C06/Harness.vo", "C06/GrammarAccept.vo", "C06/Tables.vo"])
     strings = gen_strings(ctx)
     with ctx.timed("impl"):
         scans = impl_scan(ctx, strings)
